@@ -7,6 +7,11 @@
 (*                                                                          *)
 (* A widget tree is T = [n, parent, caps]: widgets 1..n, 1 is the root,     *)
 (* parent[w] (0 for the root), caps[w] = w implements EventCapturer.        *)
+(* A session has one such tree per layout (a widget may be drawn by         *)
+(* different parents in different layouts): S = [n, pars, caps, lays],      *)
+(* At(S, k) is the tree of layout k.  The tree that counts for the chain    *)
+(* under the pointer, the hover set, the route of a mouse event and the     *)
+(* path to the focused widget is the tree of the LAST DRAWN FRAME.          *)
 (* A layout L is a sequence of [x, y, w, h, z, hid] per widget: origin      *)
 (* relative to the parent, size, z-index (the last drawn frame); hid = the  *)
 (* widget is not drawn by its parent in that layout (it and its subtree are *)
@@ -65,6 +70,7 @@ FocusCmds(ret) == LET f == SelectSeq(Flat(ret), LAMBDA c : c.c = "focus")
                   IN [i \in 1..Len(f) |-> f[i].w]
 
 (* ---- paths and chains -------------------------------------------------------*)
+At(S, k) == [n |-> S.n, parent |-> S.pars[k], caps |-> S.caps, lays |-> S.lays]
 RECURSIVE PathTo(_, _)
 PathTo(T, w) == IF w = 0 THEN <<>> ELSE Append(PathTo(T, T.parent[w]), w)
 
@@ -173,14 +179,15 @@ AnyHas(offers, name) == \E i \in 1..Len(offers) : Has(offers[i].ret, name)
 St0 == [focus |-> 1, hover |-> {}, redraw |-> FALSE, refresh |-> FALSE, quit |-> FALSE,
         ptr |-> <<>>, lay |-> 1, nframes |-> 0, over |-> FALSE,
         moved |-> FALSE,    \* context for signatures: focus moved since the last frame
-        tfin |-> FALSE]     \* context for signatures: terminal focus-in seen since the last mouse event
+        tfin |-> FALSE,     \* context for signatures: terminal focus-in seen since the last mouse event
+        relaid |-> FALSE]   \* context for signatures: a frame with another parent relation drawn since the last mouse event
 
 Notif == {"enter", "leave", "fin", "fout"}
 Sel(offers, S) == SelectSeq(offers, LAMBDA o : o.cls \in S)
 
 StepChain(T, st, e) ==
-  CASE e.in.t \in {"key", "custom", "init"} -> PathTo(T, st.focus)
-    [] e.in.t = "mouse" -> HitChain(T, T.lays[st.lay], e.in.x, e.in.y)
+  CASE e.in.t \in {"key", "custom", "init"} -> PathTo(At(T, st.lay), st.focus)
+    [] e.in.t = "mouse" -> HitChain(At(T, st.lay), T.lays[st.lay], e.in.x, e.in.y)
     [] OTHER -> <<>>
 
 StepFocus(st, e) == FocusFold(AllFocusCmds(e.offers), st.focus, <<>>)
@@ -188,7 +195,7 @@ StepFocus(st, e) == FocusFold(AllFocusCmds(e.offers), st.focus, <<>>)
 StepFocusAfter(st, e) == IF e.in.t = "init" THEN FocusAfter(Sel(e.offers, {"fin", "fout"}), StepFocus(st, e))
                          ELSE StepFocus(st, e).cur
 (* a non-mouse event while the focused widget is not part of the last drawn frame *)
-Undrawn(T, st, e) == e.in.t \in {"key", "custom", "init"} /\ ~Present(T, T.lays[st.lay], st.focus)
+Undrawn(T, st, e) == e.in.t \in {"key", "custom", "init"} /\ ~Present(At(T, st.lay), T.lays[st.lay], st.focus)
 StepHover(st, e) == HoverFold(Sel(e.offers, {"enter", "leave"}), st.hover)
 
 StepWhy(T, st, e) ==
@@ -207,7 +214,7 @@ StepWhy(T, st, e) ==
      ELSE IF st.redraw /\ e.in.cls # "S" THEN "redraw-lost"   \* the driver waits for the frame after its sentinel
      ELSE IF other # <<>> THEN "foreign-offer"
      ELSE IF walk # "" THEN walk
-     ELSE IF ~FocusOK(T, T.lays[st.lay], Sel(e.offers, {"fin", "fout"}), StepFocus(st, e), e.in.t = "init")
+     ELSE IF ~FocusOK(At(T, st.lay), T.lays[st.lay], Sel(e.offers, {"fin", "fout"}), StepFocus(st, e), e.in.t = "init")
           THEN "focus-notifications"
      ELSE IF hv = {0} THEN "hover-alternation"
      ELSE IF hv # want THEN "hover-set"
@@ -222,7 +229,8 @@ StepNext(st, e) ==
              !.ptr = IF e.in.t = "mouse" THEN <<e.in.x, e.in.y>>
                      ELSE IF e.in.t = "tfout" THEN <<>> ELSE @,
              !.moved = @ \/ StepFocusAfter(st, e) # st.focus,
-             !.tfin = IF e.in.t = "tfin" THEN TRUE ELSE IF e.in.t = "mouse" THEN FALSE ELSE @]
+             !.tfin = IF e.in.t = "tfin" THEN TRUE ELSE IF e.in.t = "mouse" THEN FALSE ELSE @,
+             !.relaid = IF e.in.t = "mouse" THEN FALSE ELSE @]
 
 RECURSIVE Pending(_, _)
 Pending(items, p) ==
@@ -235,20 +243,20 @@ FrameHover(st, e) == HoverFold(Sel(e.items, {"enter", "leave"}), st.hover)
 FrameWhy(T, st, e) ==
   LET offers == SelectSeq(e.items, LAMBDA o : o.cls # "draw")
       other  == SelectSeq(offers, LAMBDA o : o.cls \notin Notif)
-      chain  == IF st.ptr = <<>> THEN <<>> ELSE HitChain(T, T.lays[e.lay], st.ptr[1], st.ptr[2])
+      chain  == IF st.ptr = <<>> THEN <<>> ELSE HitChain(At(T, e.lay), T.lays[e.lay], st.ptr[1], st.ptr[2])
       want   == IF st.ptr = <<>> THEN st.hover ELSE Range(chain)
       hv     == FrameHover(st, e)
   IN IF st.over THEN "frame-after-exit"
      ELSE IF e.items = <<>> \/ e.items[1].cls # "draw" THEN "frame-without-draw"
      ELSE IF other # <<>> THEN "foreign-offer"
-     ELSE IF ~FocusOK(T, T.lays[e.lay], Sel(offers, {"fin", "fout"}), FocusFold(AllFocusCmds(offers), st.focus, <<>>), TRUE)
+     ELSE IF ~FocusOK(At(T, e.lay), T.lays[e.lay], Sel(offers, {"fin", "fout"}), FocusFold(AllFocusCmds(offers), st.focus, <<>>), TRUE)
           THEN "focus-notifications"
      ELSE IF hv = {0} THEN "hover-alternation"
      ELSE IF hv # want THEN "hover-set"
      ELSE IF e.full >= 0 /\ st.nframes > 0 /\ (e.full = 1) # st.refresh THEN "refresh"
      ELSE ""
 
-FrameNext(st, e) ==
+FrameNext(T, st, e) ==
   LET offers == SelectSeq(e.items, LAMBDA o : o.cls # "draw") IN
   [st EXCEPT !.hover = FrameHover(st, e),
              !.focus = FocusAfter(Sel(offers, {"fin", "fout"}), FocusFold(AllFocusCmds(offers), st.focus, <<>>)),
@@ -257,5 +265,6 @@ FrameNext(st, e) ==
              !.quit = @ \/ AnyHas(offers, "quit"),
              !.lay = e.lay,
              !.moved = FALSE,
+             !.relaid = @ \/ T.pars[e.lay] # T.pars[st.lay],
              !.nframes = @ + 1]
 =============================================================================
